@@ -229,6 +229,18 @@ func dedupePaths(in []string) []string {
 		if strings.HasPrefix(s, last+"/") {
 			continue
 		}
+		// in a bytewise sorted list an element such as "a-b" sorts between
+		// "a" and "a/x", so the previous element alone is not enough
+		covered := false
+		for _, o := range out {
+			if strings.HasPrefix(s, o+"/") {
+				covered = true
+				break
+			}
+		}
+		if covered {
+			continue
+		}
 		out = append(out, s)
 		last = s
 	}
